@@ -194,13 +194,13 @@ type checker struct {
 	base  map[string]*baseline // position|shape
 	stats map[string]*posStats
 	mism  []mismatch
-	// per (position, kind) count, to bound the detail kept
-	kept map[string]int
+	// family|kind|group -> failing abstract strings
+	failing map[string]map[string]bool
 	infra []string
 }
 
 func newChecker(wd *world) *checker {
-	return &checker{wd: wd, base: map[string]*baseline{}, stats: map[string]*posStats{}, kept: map[string]int{}}
+	return &checker{wd: wd, base: map[string]*baseline{}, stats: map[string]*posStats{}, failing: map[string]map[string]bool{}}
 }
 
 func lexAll(sqls []string) ([][]chsql.Token, int, error) {
@@ -288,21 +288,34 @@ func (c *checker) stat(p *position) *posStats {
 	return st
 }
 
+// record keeps the full detail of a mismatch only when no proper substring of its abstract string already failed in the
+// same position family with the same kind (cases arrive in order of increasing length, so the globally minimal witnesses
+// are always kept); every failing abstract string is listed in c.failing.
 func (c *checker) record(p *position, m mismatch) {
 	st := c.stat(p)
 	st.Mismatches++
-	k := p.Name + "|" + m.Kind
-	c.kept[k]++
-	if c.kept[k] <= 3 {
-		c.mism = append(c.mism, m)
-	} else {
-		// keep the shortest witnesses
-		for i := range c.mism {
-			if c.mism[i].Position == p.Name && c.mism[i].Kind == m.Kind && len(m.Abstract) < len(c.mism[i].Abstract) {
-				c.mism[i] = m
+	k := p.Family + "|" + m.Kind + "|" + p.Group
+	set := c.failing[k]
+	if set == nil {
+		set = map[string]bool{}
+		c.failing[k] = set
+	}
+	explained := false
+	a := m.Abstract
+	for i := 0; i <= len(a) && !explained; i++ {
+		for j := i; j <= len(a); j++ {
+			if j-i < len(a) && set[a[i:j]] {
+				explained = true
 				break
 			}
 		}
+	}
+	if set[a] {
+		explained = true // the same abstract string in another host shape / concretisation
+	}
+	set[a] = true
+	if !explained {
+		c.mism = append(c.mism, m)
 	}
 }
 
